@@ -131,7 +131,12 @@ fn fire(outcome: Outcome, token: &str) -> ! {
 
 #[cfg(feature = "tracing")]
 fn emit_log(tok: &str) {
-    tracing::info!("{tok}");
+    // message shapes: plain, multi-line, and containing the collector's `__` separator
+    match tok.len() % 3 {
+        0 => tracing::info!("{tok}"),
+        1 => tracing::info!("first line\nsecond line {tok}"),
+        _ => tracing::info!("dunder __ inside __{tok}"),
+    }
 }
 #[cfg(not(feature = "tracing"))]
 fn emit_log(_tok: &str) {}
